@@ -91,6 +91,20 @@ def run(ctx):
             if not vlib.hooks_present():
                 os.remove(out)
                 continue
+            th = out + ".thread"
+            if os.path.exists(th):
+                # the reloader thread's side of the same run: loop structure, answers after their pass, bookkeeping
+                verdict, tr, detail = vlib.trace_check("Trace_Thread", "Trace_Thread.cfg", th, name=f"c08-thread-{mode}-{sd}", timeout=900, xmx="6g")
+                if verdict == "error":
+                    raise vlib.ToolError(f"Trace_Thread validation failed to run: {detail}")
+                if verdict != "accepted":
+                    keep = th + ".rejected"
+                    os.replace(th, keep)
+                    ctx.violation(f"C08/thread-trace:{mode}", f"the reloader thread's hook events are not a run of Trace_Thread.tla ({verdict}: {detail[:300]})",
+                                  dict(scenario=runs[-1], trace_file=keep))
+                else:
+                    ctx.cov["reloader_thread_traces_validated"] = ctx.cov.get("reloader_thread_traces_validated", 0) + 1
+                    os.remove(th)
             verdict, tr, detail = vlib.trace_check("Trace_Answers", "Trace_Answers.cfg", out, name=f"c08-{mode}-{sd}", timeout=900)
             if verdict == "error":
                 raise vlib.ToolError(f"trace validation failed to run: {detail}")
